@@ -51,19 +51,33 @@ Theorem C05_failed_save_keeps : forall s dump dl,
 Proof. exact save_end_fail_spec. Qed.
 Print Assumptions C05_failed_save_keeps.
 
-(* a Save() issued while another one is in flight is not lost: it waits, and runs its own dump as soon as
-   the first returns (so positions acknowledged during the first store call are written by it) *)
+(* a Save() issued while another one is in flight is not lost, and does not return before that one has: it
+   waits for the save lock (repaired defect K9) and, if anything is marked by then, runs its own dump as soon
+   as the first returns (so positions acknowledged during the first store call are written by it) *)
 Theorem C05_queued_save_runs : forall s dump dl ok,
   s_failed s = false -> s_inflight s = Some (dump, dl) -> s_any_dirty s = true ->
   let s1 := fst (step s SaveQueue) in
   snd (step s SaveQueue) = [] /\ s_queued s1 = S (s_queued s) /\
   exists dump' dl', snd (step s1 (SaveEnd ok)) = [MetaSave dump' dl'].
 Proof.
-  intros s dump dl ok F I A. unfold step at 1 2 3. rewrite F, I, A. cbn [negb fst snd]. split; [reflexivity|]. split; [reflexivity|].
+  intros s dump dl ok F I A. unfold step at 1 2 3. rewrite F, I. cbn [fst snd]. split; [reflexivity|]. split; [reflexivity|].
   unfold step. cbn [s_failed set_queued s_inflight]. rewrite F, I.
-  destruct ok; unfold next_queued; cbn [s_queued set_inflight set_store set_dirty set_queued]; unfold save_body; cbn [snd]; eauto.
+  destruct ok; unfold next_queued; cbn [s_queued set_inflight set_store set_dirty set_queued drain s_any_dirty]; rewrite ?A;
+    unfold save_body; cbn [snd]; eauto.
 Qed.
 Print Assumptions C05_queued_save_runs.
+
+(* ... and when nothing is marked by then it returns without calling the store *)
+Theorem C05_queued_save_waits : forall s dump dl,
+  s_failed s = false -> s_inflight s = Some (dump, dl) -> s_any_dirty s = false -> s_queued s = 0%nat ->
+  let s1 := fst (step s SaveQueue) in
+  snd (step s SaveQueue) = [] /\ snd (step s1 (SaveEnd true)) = [NoSave] /\ s_inflight (fst (step s1 (SaveEnd true))) = None.
+Proof.
+  intros s dump dl F I A Q. unfold step at 1 2. rewrite F, I. cbn [fst snd]. split; [reflexivity|].
+  unfold step. cbn [s_failed set_queued s_inflight]. rewrite F, I.
+  unfold next_queued; cbn [s_queued set_inflight set_store set_dirty set_queued drain s_any_dirty]. rewrite Q, A. cbn. auto.
+Qed.
+Print Assumptions C05_queued_save_waits.
 
 (* a save issued when nothing changed performs no write: the store is not even called *)
 Theorem C05_nothing_changed_no_write : forall s,
